@@ -1,1 +1,13 @@
-# filled as checks are registered
+# id -> claim (category, technique, text, note, design section, engine); read by tools_manifest.py
+def claim(i, **kw):
+    CLAIMS[i] = kw
+
+claim("C06", category="model_checking", engine="arraymc",
+      technique="explicit-state BFS over operation histories executed by the real CLI; independent parity/content oracle on every reached state",
+      text="Every state reachable by <=3 (quick) / <=4 (thorough) operations (9 file operations x 18-23 snapraid commands incl. every sync flavour, "
+           "kill-after-sync, forced autosave, files changed/removed during sync, scrub, fix variants, rehash, touch) from a synced array, in 3 / 6 "
+           "configurations (1,2,3z,3,6 levels; split parity; hash kinds/sizes; several content copies), is decoded with an independent content "
+           "codec and every all-synced stripe is recomputed with an independent GF(2^8) generator and compared with the parity bytes addressed "
+           "through the recorded split sizes; map sanity is checked on the same state. Exhaustive within the depth bound; all traces are real executions.",
+      note="trusted: libvp interposition (frozen clock/urandom/statfs), the lab's version store as ground truth for file bytes, vpref.c as field/generator reference; arrays have <=4 disks and 1-2 KiB blocks",
+      design="3 C06")
